@@ -624,7 +624,9 @@ impl<T: Default + Reset + Traceable> Space<T> {
         // Mark as pooled (reset already called in sweep or will be called on reuse)
         gc_box.pooled.set(true);
         #[cfg(tsrun_verif)]
-        gc_box.generation.set(gc_box.generation.get().wrapping_add(1));
+        gc_box
+            .generation
+            .set(gc_box.generation.get().wrapping_add(1));
 
         // Add pointer to pool for reuse
         self.free_list.push(ptr);
